@@ -76,7 +76,7 @@ def parse_edit(line, unit, lineno):
     m = re.match(r"loop (\d+) for_to_while (ref|val):\s*(.*)$", t, re.S)
     if m:
         return {"op": "for_to_while", "n": int(m.group(1)), "mode": m.group(2), "spec": m.group(3)}
-    m = re.match(r"chain (\d+) (spec|head|pre_push|after|elem):\s*(.*)$", t, re.S)
+    m = re.match(r"chain (\d+) (spec|head|pre_push|after|elem|flat):\s*(.*)$", t, re.S)
     if m:
         return {"op": "chain_part", "n": int(m.group(1)), "part": m.group(2), "text": m.group(3)}
     m = re.match(r"drop_nested_fn:\s*(\w+)$", t)
